@@ -928,7 +928,18 @@ def moment(x, n, weight=None, axis=None, keepdims=False, mask_identity=True):
         return ak.nplike.of(sumwxn, sumw).true_divide(sumwxn, sumw)
 
 
+# NumPy's own argument order (np.mean(a, axis, ...)): the second positional
+# argument is the axis, not a weight
 @ak._connect._numpy.implements("mean")
+def _numpy_mean(a, axis=None, dtype=None, out=None, keepdims=False):
+    if dtype is not None or out is not None:
+        raise NotImplementedError(
+            "np.mean of an Awkward Array with 'dtype' or 'out'"
+            + ak._util.exception_suffix(__file__)
+        )
+    return mean(a, axis=axis, keepdims=keepdims)
+
+
 def mean(x, weight=None, axis=None, keepdims=False, mask_identity=True):
     """
     Args:
@@ -1007,7 +1018,18 @@ def mean(x, weight=None, axis=None, keepdims=False, mask_identity=True):
         return ak.nplike.of(sumwx, sumw).true_divide(sumwx, sumw)
 
 
+# NumPy's own argument order (np.var(a, axis, ...)): the second positional
+# argument is the axis, not a weight
 @ak._connect._numpy.implements("var")
+def _numpy_var(a, axis=None, dtype=None, out=None, ddof=0, keepdims=False):
+    if dtype is not None or out is not None:
+        raise NotImplementedError(
+            "np.var of an Awkward Array with 'dtype' or 'out'"
+            + ak._util.exception_suffix(__file__)
+        )
+    return var(a, ddof=ddof, axis=axis, keepdims=keepdims)
+
+
 def var(x, weight=None, ddof=0, axis=None, keepdims=False, mask_identity=True):
     """
     Args:
@@ -1089,7 +1111,18 @@ def var(x, weight=None, ddof=0, axis=None, keepdims=False, mask_identity=True):
             return ak.nplike.of(sumwxx, sumw).true_divide(sumwxx, sumw)
 
 
+# NumPy's own argument order (np.std(a, axis, ...)): the second positional
+# argument is the axis, not a weight
 @ak._connect._numpy.implements("std")
+def _numpy_std(a, axis=None, dtype=None, out=None, ddof=0, keepdims=False):
+    if dtype is not None or out is not None:
+        raise NotImplementedError(
+            "np.std of an Awkward Array with 'dtype' or 'out'"
+            + ak._util.exception_suffix(__file__)
+        )
+    return std(a, ddof=ddof, axis=axis, keepdims=keepdims)
+
+
 def std(x, weight=None, ddof=0, axis=None, keepdims=False, mask_identity=True):
     """
     Args:
